@@ -139,7 +139,16 @@ struct StModel {
     } else if (op == "insert_faces") {
       insret(st.insert_simplex_and_subfaces(lab(ints(act.at("s"))), tofv(act.at("f"))));
     } else if (op == "batch") {
-      st.insert_batch_vertices(lab(ints(act.at("vs"))), tofv(act.at("f")));
+      // the range is a presentation of the vertex SET: in increasing order, reversed, or with a vertex listed twice
+      // (adjacent in a sorted range, or apart)
+      auto vs = lab(ints(act.at("vs")));
+      switch (nbatch_++ % 4) {
+        case 1: std::reverse(vs.begin(), vs.end()); break;
+        case 2: if (!vs.empty()) { vs.push_back(vs[vs.size() / 2]); std::sort(vs.begin(), vs.end()); } break;
+        case 3: if (!vs.empty()) vs.push_back(vs.front()); break;
+        default: break;
+      }
+      st.insert_batch_vertices(vs, tofv(act.at("f")));
     } else if (op == "graph") {
       using Graph = Gudhi::Proximity_graph<ST>;
       std::vector<typename boost::graph_traits<Graph>::edges_size_type> dummy;
@@ -213,7 +222,7 @@ struct StModel {
   }
 
   // ----- projection -----
-  unsigned nobs_rot_ = 0;
+  static inline unsigned nobs_rot_ = 0, nbatch_ = 0;   // process-wide: a fresh model object is built for every behaviour
   bj::object observe() {
     const ST& c = st;
     bj::object o;
